@@ -20,7 +20,8 @@ import (
 // C16 (S) dependency hook: the real discoveryClient (dependency stream feeding the two subscription
 // clients through its hook) over a scripted DiscoveryServiceClient.
 //
-// history   dependency messages: +16 services, +x, -x (INPUT: also +x,-x,+x and -svc00), while the service
+// history   dependency messages: +16 services, +x, -x (INPUT: also +x,-x,+x and -svc00; one message naming a service
+//           both as added and as removed), while the service
 //           streams are down; then the service streams come up
 // bound     P, F, Sel (see Setup); virtual retry timers (Settle)
 // oracle    at quiescence with the streams up, the set subscribed on the config stream and on the endpoint
@@ -139,7 +140,7 @@ func svcs(names ...string) []*service.Service {
 
 func c16depBody() {
 	w := &depWorld{}
-	plan := sched.Choose(sched.ClsInput, 3, "plan")
+	plan := sched.Choose(sched.ClsInput, 5, "plan")
 	var first []string
 	for i := 0; i < 16; i++ {
 		first = append(first, fmt.Sprintf("svc%02d", i))
@@ -157,6 +158,12 @@ func c16depBody() {
 		want["x"] = true
 	case 2: // an early service removed, another added
 		msgs = append(msgs, &api.DependencyDiscoveryResponse{Added: svcs("x"), Removed: svcs("svc00")}, &api.DependencyDiscoveryResponse{Removed: svcs("x"), Added: svcs("svc00")})
+	case 3: // one message names a service as added and as removed: the removal decides (as it does for the dependency set kept by Config)
+		msgs = append(msgs, &api.DependencyDiscoveryResponse{Added: svcs("x"), Removed: svcs("x")})
+	case 4: // the same for a service that is a dependency already
+		msgs = append(msgs, &api.DependencyDiscoveryResponse{Added: svcs("svc03", "y"), Removed: svcs("svc03")})
+		delete(want, "svc03")
+		want["y"] = true
 	}
 	c := newDiscoveryClient(&fakeAPI{w})
 	ctx, cancel := context.WithCancel(context.Background())
